@@ -398,15 +398,30 @@ class FakeRedis:
         pass
 
     def c_ZADD(self, k, *a):
-        if len(a) % 2 or not a:
+        a = list(a)
+        flags = set()
+        while a and a[0].upper() in (b"NX", b"XX", b"GT", b"LT", b"CH"):
+            flags.add(a.pop(0).upper())
+        if a and a[0].upper() == b"INCR":
+            raise RErr("ERR INCR not implemented in fake")
+        if len(a) % 2 or not a or (b"NX" in flags and flags & {b"XX", b"GT", b"LT"}):
             raise RErr("ERR syntax error")
         z = self._typed(k, FakeRedis.ZSet, create=True)
-        n = 0
+        added = changed = 0
         for i in range(0, len(a), 2):
-            if a[i + 1] not in z:
-                n += 1
-            z[a[i + 1]] = float(a[i])
-        return n
+            m, v = a[i + 1], float(a[i])
+            if m not in z:
+                if b"XX" in flags:
+                    continue
+                added += 1
+                z[m] = v
+                continue
+            if b"NX" in flags or (b"GT" in flags and not v > z[m]) or (b"LT" in flags and not v < z[m]):
+                continue
+            if z[m] != v:
+                changed += 1
+            z[m] = v
+        return added + (changed if b"CH" in flags else 0)
 
     def c_ZREM(self, k, *ms):
         z = self._typed(k, FakeRedis.ZSet)
